@@ -23,20 +23,21 @@ import (
 // statically resolvable name) a function that does.  Calls through interfaces
 // or function values are not resolved (DESIGN §5: trusted base).
 type concGen struct {
-	fset    *token.FileSet
-	funcs   map[string]*ast.FuncDecl // "Name" or "Recv.Name"
-	byName  map[string][]string      // bare name -> keys
-	mutexes map[string]bool
-	pools   map[string]bool
-	maps    map[string]bool // package-level variables other than mutexes, pools and self-synchronising types
-	topSpec map[*ast.ValueSpec]bool
-	structs map[string]*structInfo // struct types declared in the package
-	varType map[string]string      // package-level variable -> its struct type (T for T, *T, T{…}, &T{…}, new(T))
-	shared  map[string]bool        // struct types that have a package-level instance
-	recv    string                 // receiver name of the method being read, "" in a function
-	recvT   string                 // its struct type when that type is shared
-	mutable map[string]bool
-	rel     map[string]bool
+	fset     *token.FileSet
+	funcs    map[string]*ast.FuncDecl // "Name" or "Recv.Name"
+	byName   map[string][]string      // bare name -> keys
+	mutexes  map[string]bool
+	pools    map[string]bool
+	maps     map[string]bool // package-level variables other than mutexes, pools and self-synchronising types
+	topSpec  map[*ast.ValueSpec]bool
+	structs  map[string]*structInfo // struct types declared in the package
+	varType  map[string]string      // package-level variable -> its struct type (T for T, *T, T{…}, &T{…}, new(T))
+	shared   map[string]bool        // struct types that have a package-level instance
+	selfSync map[string]bool        // package-level sync.Map / sync.Once / atomic.* variables
+	recv     string                 // receiver name of the method being read, "" in a function
+	recvT    string                 // its struct type when that type is shared
+	mutable  map[string]bool
+	rel      map[string]bool
 }
 
 // structInfo: the fields of a struct type that matter for the lock discipline
@@ -82,7 +83,7 @@ func recvName(fd *ast.FuncDecl) string {
 func genConc(repo, out string) {
 	g := &concGen{fset: token.NewFileSet(), funcs: map[string]*ast.FuncDecl{}, byName: map[string][]string{},
 		mutexes: map[string]bool{}, pools: map[string]bool{}, maps: map[string]bool{}, topSpec: map[*ast.ValueSpec]bool{},
-		structs: map[string]*structInfo{}, varType: map[string]string{}, shared: map[string]bool{}, mutable: map[string]bool{}, rel: map[string]bool{}}
+		structs: map[string]*structInfo{}, varType: map[string]string{}, shared: map[string]bool{}, selfSync: map[string]bool{}, mutable: map[string]bool{}, rel: map[string]bool{}}
 	files, _ := filepath.Glob(filepath.Join(repo, "*.go"))
 	sort.Strings(files)
 	var parsed []*ast.File
@@ -166,7 +167,8 @@ func genConc(repo, out string) {
 						case strings.Contains(ts, "sync.Pool") || strings.HasPrefix(vstr, "sync.Pool"):
 							g.pools[nm.Name] = true
 						case strings.Contains(ts, "sync.Map") || strings.Contains(ts, "sync.Once") || strings.Contains(ts, "atomic.") || strings.Contains(vstr, "sync.Map") || strings.Contains(vstr, "atomic."):
-							// synchronise themselves
+							// synchronise themselves — but they are state that outlives a call
+							g.selfSync[nm.Name] = true
 						case nm.Name != "_":
 							g.maps[nm.Name] = true
 							if tn := typeName(vs.Type); tn != "" {
@@ -349,6 +351,40 @@ func genConc(repo, out string) {
 	fmt.Fprintf(&b, "Definition conc_pools : list string := [%s].\n", strings.Join(px, "; "))
 	os.MkdirAll(out, 0o755)
 	writeIfChanged(filepath.Join(out, "Conc.v"), b.Bytes())
+
+	// State.v: everything in the package that can carry information from one call to the next — the
+	// inventory behind every "whatever was called before" clause (the models are functions of their
+	// arguments plus exactly this state)
+	var st []string
+	for m := range g.mutexes {
+		st = append(st, "(\"mutex\", \""+m+"\")")
+	}
+	for m := range g.pools {
+		st = append(st, "(\"pool\", \""+m+"\")")
+	}
+	for m := range g.mutable {
+		st = append(st, "(\"variable\", \""+m+"\")")
+	}
+	for m := range g.selfSync {
+		st = append(st, "(\"self-synchronising\", \""+m+"\")")
+	}
+	for t, si := range g.structs {
+		if !g.shared[t] {
+			continue
+		}
+		for f := range si.selfSync {
+			st = append(st, "(\"self-synchronising\", \""+t+"."+f+"\")")
+		}
+	}
+	sort.Strings(st)
+	var sb bytes.Buffer
+	sb.WriteString("(* GENERATED by harness/cmd/gentables (go/ast) from /repo/*.go; do not edit.\n")
+	sb.WriteString("   Package-level state that outlives a call: mutexes, sync.Pools, variables (or fields of a struct with a\n")
+	sb.WriteString("   package-level instance) written outside their declaration and init, and self-synchronising values\n")
+	sb.WriteString("   (sync.Map, sync.Once, atomic values). *)\n")
+	sb.WriteString("From Coq Require Import String List.\nImport ListNotations.\nOpen Scope string_scope.\n\n")
+	fmt.Fprintf(&sb, "Definition package_state : list (string * string) := [%s].\n", strings.Join(st, "; "))
+	writeIfChanged(filepath.Join(out, "State.v"), sb.Bytes())
 }
 
 // enter records the receiver of the method about to be read: inside a method of a struct type that
